@@ -372,10 +372,37 @@ def baseline_paths():
         p = os.path.join(os.path.dirname(os.path.dirname(os.path.abspath(__file__))), "baseline_defs.json")
         try:
             with open(p) as f:
-                BASELINE = set(json.load(f))
+                d = json.load(f)
+            BASELINE = set(d["paths"]) if isinstance(d, dict) else set(d)
+            baseline_paths.adts = d.get("adts", {}) if isinstance(d, dict) else {}
+            baseline_paths.mods = d.get("mods", {}) if isinstance(d, dict) else {}
         except OSError:
             BASELINE = set()
+            baseline_paths.adts, baseline_paths.mods = {}, {}
     return BASELINE
+
+
+def adt_key(a):
+    """shape of an ADT that survives renaming the type: per variant the field count and the field types with every crate path
+    reduced to its last segment"""
+    import re
+    def t(x):
+        return re.sub(r"crate::(?:[A-Za-z0-9_]+::)*", "", x or "")
+    return [[t(f.get("ty")) for f in v.get("fields", [])] for v in a.get("variants", [])]
+
+
+def baseline_record(raw):
+    mods = {}
+    paths = sorted(def_paths(raw))
+    modset = {m["path"] for m in raw.get("mods", [])}
+    for m in modset:
+        kids = set()
+        for p in paths:
+            if p.startswith(m + "::") and "::" not in p[len(m) + 2:] and not p[len(m) + 2:].startswith("<"):
+                kids.add(p[len(m) + 2:])
+        mods[m] = sorted(kids)
+    return {"paths": paths, "adts": {a["path"]: {"key": adt_key(a), "fields": [[f["name"] for f in v.get("fields", [])] for v in a.get("variants", [])],
+                                                 "variants": [v.get("name") for v in a.get("variants", [])]} for a in raw.get("adts", [])}, "mods": mods}
 
 
 def def_paths(raw):
@@ -400,6 +427,41 @@ def canonical_rewrites(raw):
         return []
     cur = def_paths(raw)
     rw = {}
+    # (0) a private module that was renamed: same children under another name
+    bmods = getattr(baseline_paths, "mods", {})
+    cmods = {}
+    for m in {m["path"] for m in raw.get("mods", [])}:
+        cmods[m] = {p[len(m) + 2:] for p in cur if p.startswith(m + "::") and "::" not in p[len(m) + 2:] and not p[len(m) + 2:].startswith("<")}
+    for m2, kids2 in cmods.items():
+        if m2 in bmods or not kids2:
+            continue
+        best = None
+        for m1, kids1 in bmods.items():
+            if m1 in cmods or not kids1:
+                continue
+            k1 = set(kids1)
+            j = len(k1 & kids2) / float(len(k1 | kids2))
+            if j >= 0.8 and m1.rsplit("::", 1)[0] == m2.rsplit("::", 1)[0] and (best is None or j > best[0]):
+                best = (j, m1)
+        if best:
+            rw[m2] = best[1]
+    # (0b) a private type that was renamed: same module (after the rewrites so far), same shape, old name gone
+    badts = getattr(baseline_paths, "adts", {})
+    cadts = {a["path"]: a for a in raw.get("adts", [])}
+
+    def canon(p):
+        for o, n in sorted(rw.items(), key=lambda kv: -len(kv[0])):
+            if p == o or p.startswith(o + "::"):
+                return n + p[len(o):]
+        return p
+    present = {canon(p) for p in cadts}
+    for p2, a2 in cadts.items():
+        c2 = canon(p2)
+        if c2 in badts:
+            continue
+        cands = [p1 for p1, rec in badts.items() if p1 not in present and p1.rsplit("::", 1)[0] == c2.rsplit("::", 1)[0] and rec["key"] == adt_key(a2) and rec["key"]]
+        if len(cands) == 1:
+            rw[p2] = cands[0]
     for r in raw.get("reexports", []):
         a, t = r["alias"], r["target"]
         if t not in base and a in base and t in cur and a not in cur:
@@ -455,6 +517,14 @@ class Facts:
                 text = re.sub(re.escape(json.dumps(old)[1:-1]) + r"(?![A-Za-z0-9_])", lambda m, n=json.dumps(new)[1:-1]: n, text)
             self.raw = json.loads(text)
         self.rewrites = rws
+        badts = getattr(baseline_paths, "adts", {}) if baseline_paths() else {}
+        for a in self.raw.get("adts", []):
+            rec = badts.get(a["path"])
+            if rec and len(rec["fields"]) == len(a.get("variants", [])):
+                for v, names, vname in zip(a["variants"], rec["fields"], rec["variants"]):
+                    if len(names) == len(v.get("fields", [])):
+                        for f, nm in zip(v["fields"], names):
+                            f["name"] = nm              # private fields are known to the rules by their pinned names (by position)
         self.path = path
         self.config = self.raw["config"]
         self.bodies = {}
